@@ -72,6 +72,100 @@ func boolVerdict(v aval) (bool, bool) {
 	return false, false
 }
 
+// boolQuantifierRef: reference semantics of the Boolean quantifier functions.
+var boolQuantifierRef = map[string]func(items []bool) bool{
+	"AllTrue": func(it []bool) bool {
+		for _, b := range it {
+			if !b {
+				return false
+			}
+		}
+		return true
+	},
+	"AllFalse": func(it []bool) bool {
+		for _, b := range it {
+			if b {
+				return false
+			}
+		}
+		return true
+	},
+	"AnyTrue": func(it []bool) bool {
+		for _, b := range it {
+			if b {
+				return true
+			}
+		}
+		return false
+	},
+	"AnyFalse": func(it []bool) bool {
+		for _, b := range it {
+			if !b {
+				return true
+			}
+		}
+		return false
+	},
+}
+
+func ordEvalQuantifier(p *Program, r *RuleResult, fn *ssa.Function, name string, want func([]bool) bool) {
+	st, err := systemTypes(p)
+	if err != nil {
+		r.anchorFail(err)
+		return
+	}
+	var wrong, undec []string
+	n := 0
+	for length := 0; length <= 3; length++ {
+		for bits := 0; bits < 1<<length; bits++ {
+			var items []bool
+			var vals []aval
+			for i := 0; i < length; i++ {
+				b := bits&(1<<i) != 0
+				items = append(items, b)
+				vals = append(vals, st.boolItem(b))
+			}
+			n++
+			an := newAnalyzer()
+			an.maxBlocks = 200
+			res := an.analyze(fn, []aval{nonnil("ctx"), coll(vals...), sliceLen(0)})
+			got := -3
+			if len(res.rets) >= 1 && len(res.hazards) == 0 && !res.nonconverged {
+				for i, ri := range res.rets {
+					t := -3
+					if retIsOK(ri) {
+						t = collTruth(ri.vals[0])
+					}
+					if i == 0 {
+						got = t
+					} else if t != got {
+						got = -3
+					}
+				}
+			}
+			w := 0
+			if want(items) {
+				w = 1
+			}
+			switch {
+			case got != 0 && got != 1:
+				undec = append(undec, fmt.Sprint(items))
+			case got != w:
+				wrong = append(wrong, fmt.Sprintf("%v → %v (want %v)", items, got == 1, w == 1))
+			}
+		}
+	}
+	key := short(fn) + "|evaluated on Boolean collections"
+	switch {
+	case len(wrong) > 0:
+		r.bad(key, fmt.Sprintf("%s differs from its quantifier on %d of %d collections, e.g. %s", name, len(wrong), n, wrong[0]), p.pos(fn.Pos()), "the quantifier's verdict must take every item into account")
+	case len(undec) > 0:
+		r.undecided(key, fmt.Sprintf("%s could not be evaluated on %d of %d collections, e.g. %s", name, len(undec), n, undec[0]), p.pos(fn.Pos()), "not foldable")
+	default:
+		r.ok(key, fmt.Sprintf("%s agrees with its quantifier on all %d collections of up to 3 Booleans", name, n), p.pos(fn.Pos()), "constant propagation through the delegating function and its helper, the loop analysed per iteration", true)
+	}
+}
+
 func ruleORD1(p *Program) *RuleResult {
 	r := newResult("ORD1")
 	for _, q := range quantifiers {
@@ -90,6 +184,14 @@ func ruleORD1(p *Program) *RuleResult {
 		}
 		loops := naturalLoops(fn)
 		if len(loops) == 0 {
+			// the loop lives in a helper: the Boolean quantifiers are then decided by
+			// evaluating them on every collection of up to 3 Booleans (the helper is
+			// analysed in context, its loop iteration by iteration)
+			if want, ok := boolQuantifierRef[q.name]; ok {
+				r.count("quantifier_functions", 1)
+				ordEvalQuantifier(p, r, fn, q.name, want)
+				continue
+			}
 			r.note("%s has no loop (delegates)", short(fn))
 			continue
 		}
@@ -130,7 +232,7 @@ func ruleORD1(p *Program) *RuleResult {
 			r.bad(short(fn)+"|no-verdict", short(fn)+" never returns its "+kind+" verdict", p.pos(fn.Pos()), "the quantifier cannot succeed")
 		}
 	}
-	r.floor("quantifier_functions", 6)
+	r.floor("quantifier_functions", 4)
 	return r
 }
 
@@ -787,7 +889,7 @@ func ruleORD8(p *Program) *RuleResult {
 			r.undecided("DateTime."+m+"|getComponents", fmt.Sprintf("DateTime.%s reads the components of %d values (2 expected)", m, n), p.pos(fn.Pos()), "shape changed")
 		}
 	}
-	r.floor("component_reads", 4)
+	r.floor("component_reads", 2)
 	return r
 }
 
